@@ -31,6 +31,7 @@ V_ENSURES(!__CPROVER_return_value || __CPROVER_is_fresh(hash->ctx, 1)) /*@C03.ha
 V_ENSURES(!__CPROVER_return_value || (hash->type == hash_type && hash_type != NULL && hash->ctx != NULL)) /*@C03.hash_init.initialised*/
 V_ENSURES(__CPROVER_return_value || zck == NULL || zck->error_state > 0 || hash->ctx == NULL) /*@C03.hash_init.failure*/
 V_ENSURES(__CPROVER_return_value || hash->ctx == NULL) /*@C03.hash_init.no_ctx_on_failure*/
+V_ENSURES(!__CPROVER_return_value || zck == NULL || zck->error_state == V_OLD(zck->error_state)) /*@C12.hash_init.success_keeps_error_state*/
 V_ENSURES(hash != g_hu_hash || (g_hu_total == 0 && g_hu_seen == 0 && g_hu_final == V_OLD(g_hu_final) && g_hu_inits == V_OLD(g_hu_inits) + 1)) /*@C06,C09.hash_init.restarts_stream*/
 V_ENSURES(hash == g_hu_hash || (g_hu_total == V_OLD(g_hu_total) && g_hu_seen == V_OLD(g_hu_seen) && g_hu_ptr == V_OLD(g_hu_ptr) && g_hu_final == V_OLD(g_hu_final) && g_hu_inits == V_OLD(g_hu_inits))) /*@C06.hash_init.other_hash_untouched*/
 ;
@@ -42,6 +43,7 @@ V_REQUIRES(message == NULL || size == 0 || __CPROVER_r_ok(message, size))      /
 V_ASSIGNS(g_hu_total, g_hu_seen, g_hu_ptr; zck != NULL: zck->error_state)
 V_ENSURES(!__CPROVER_return_value || (message == NULL && size == 0) || (hash != NULL && hash->ctx != NULL && hash->type != NULL)) /*@C03.hash_update.needs_initialised_hash*/
 V_ENSURES(__CPROVER_return_value || zck == NULL || zck->error_state > 0) /*@C12.hash_update.failure_sets_error*/
+V_ENSURES(!__CPROVER_return_value || zck == NULL || zck->error_state == V_OLD(zck->error_state)) /*@C12.hash_update.success_keeps_error_state*/
 #define HU_HIT(h, n) ((h) == g_hu_hash && g_hu_k >= V_OLD(g_hu_total) && g_hu_k - V_OLD(g_hu_total) < (n))
 V_ENSURES(!__CPROVER_return_value || hash != g_hu_hash || message == NULL || g_hu_total == V_OLD(g_hu_total) + size) /*@C06,C09.hash_update.stream_grows_by_size*/
 V_ENSURES(!__CPROVER_return_value || message == NULL || !HU_HIT(hash, size) || (g_hu_seen == V_OLD(g_hu_seen) + 1 && g_hu_ptr == message + (g_hu_k - V_OLD(g_hu_total)))) /*@C06,C09.hash_update.records_fed_byte*/
@@ -62,6 +64,7 @@ V_ENSURES(hash->ctx == NULL && hash->type == NULL) /*@C03.hash_finalize.closes_h
 V_ENSURES(__CPROVER_return_value == NULL || __CPROVER_is_fresh(__CPROVER_return_value, SPEC_ALLOC_DIGEST(HASH_TYPE_OLD(hash)))) /*@C03.hash_finalize.digest_buffer_size*/
 V_ENSURES(__CPROVER_return_value == NULL || (V_OLD(hash->type) != NULL && V_OLD(hash->ctx) != NULL && SPEC_HASH_VALID(HASH_TYPE_OLD(hash)))) /*@C03.hash_finalize.needs_initialised_hash*/
 V_ENSURES(__CPROVER_return_value != NULL || zck == NULL || zck->error_state > 0 || V_OLD(hash->ctx) != NULL) /*@C03.hash_finalize.failure*/
+V_ENSURES(__CPROVER_return_value == NULL || zck == NULL || zck->error_state == V_OLD(zck->error_state)) /*@C12.hash_finalize.success_keeps_error_state*/
 V_ENSURES(hash != g_hu_hash || __CPROVER_return_value == NULL || (g_hu_final == V_OLD(g_hu_final) + 1 && g_fin_total == g_hu_total && g_fin_seen == g_hu_seen && g_fin_ptr == g_hu_ptr && (!(g_k1 < (size_t)SPEC_ALLOC_DIGEST(HASH_TYPE_OLD(hash))) || g_fin_val == __CPROVER_return_value[g_k1]))) /*@C06,C09.hash_finalize.records_digest_byte*/
 V_ENSURES((hash == g_hu_hash && __CPROVER_return_value != NULL) || (g_hu_final == V_OLD(g_hu_final) && g_fin_val == V_OLD(g_fin_val) && g_fin_total == V_OLD(g_fin_total) && g_fin_seen == V_OLD(g_fin_seen) && g_fin_ptr == V_OLD(g_fin_ptr))) /*@C06.hash_finalize.record_unchanged_elsewhere*/
 ;
@@ -107,6 +110,8 @@ V_ENSURES(__CPROVER_return_value != 1 || &idx->zck->check_chunk_hash != g_hu_has
 V_ENSURES(__CPROVER_return_value != 1 || idx->comp_length != 0 || !(g_k1 < (size_t)idx->digest_size) || idx->digest[g_k1] == 0) /*@C02,C09.validate_chunk.empty_chunk_needs_zero_digest*/
 V_ENSURES((V_OLD(idx->zck->error_state) > 0 && idx->zck->check_chunk_hash.ctx == V_OLD(idx->zck->check_chunk_hash.ctx) && idx->zck->check_chunk_hash.type == V_OLD(idx->zck->check_chunk_hash.type)) || (idx->zck->check_chunk_hash.ctx == NULL && idx->zck->check_chunk_hash.type == NULL)) /*@C03.validate_chunk.hash_closed_or_untouched*/
 V_ENSURES(__CPROVER_return_value != 0 || idx->zck->error_state > 0) /*@C12.validate_chunk.error_sets_error_state*/
+V_ENSURES(__CPROVER_return_value != 1 || idx->zck->error_state == 0) /*@C12.validate_chunk.valid_verdict_leaves_no_error*/
+V_ENSURES(&idx->zck->check_chunk_hash == g_hu_hash || (g_hu_final == V_OLD(g_hu_final) && g_fin_val == V_OLD(g_fin_val) && g_fin_total == V_OLD(g_fin_total) && g_fin_seen == V_OLD(g_fin_seen) && g_fin_ptr == V_OLD(g_fin_ptr))) /*@C02.validate_chunk.other_hash_untouched*/
 ;
 
 int validate_current_chunk(zckCtx *zck)
@@ -116,7 +121,8 @@ V_REQUIRES(CHUNK_HASH_WF(zck))
 V_ASSIGNS(zck->comp.data_idx->valid, zck->check_chunk_hash.type, zck->check_chunk_hash.ctx, zck->error_state, g_hu_final, g_fin_val, g_fin_total, g_fin_seen, g_fin_ptr)
 V_FREES(zck->check_chunk_hash.ctx)
 V_ENSURES(__CPROVER_return_value == 1 || __CPROVER_return_value == 0 || __CPROVER_return_value == -1) /*@C02.validate_current_chunk.ret*/
-V_ENSURES(__CPROVER_return_value != 1 || (V_OLD(zck->error_state) == 0 && zck->comp.data_idx->valid == 1)) /*@C02,C15.validate_current_chunk.one_means_chunk_marked_valid*/
+V_ENSURES(__CPROVER_return_value != 1 || (V_OLD(zck->error_state) == 0 && zck->error_state == 0 && zck->comp.data_idx->valid == 1)) /*@C02,C15.validate_current_chunk.one_means_chunk_marked_valid*/
+V_ENSURES(&zck->check_chunk_hash == g_hu_hash || (g_hu_final == V_OLD(g_hu_final) && g_fin_val == V_OLD(g_fin_val) && g_fin_total == V_OLD(g_fin_total) && g_fin_seen == V_OLD(g_fin_seen) && g_fin_ptr == V_OLD(g_fin_ptr))) /*@C02.validate_current_chunk.other_hash_untouched*/
 V_ENSURES(__CPROVER_return_value != 1 || &zck->check_chunk_hash != g_hu_hash || (g_hu_final == V_OLD(g_hu_final) + 1 && g_fin_total == V_OLD(g_hu_total) && g_fin_seen == V_OLD(g_hu_seen))) /*@C02,C15.validate_current_chunk.verdict_is_over_everything_fed_since_init*/
 V_ENSURES((V_OLD(zck->error_state) > 0 && zck->check_chunk_hash.ctx == V_OLD(zck->check_chunk_hash.ctx) && zck->check_chunk_hash.type == V_OLD(zck->check_chunk_hash.type)) || (zck->check_chunk_hash.ctx == NULL && zck->check_chunk_hash.type == NULL)) /*@C03.validate_current_chunk.hash_closed_or_untouched*/
 V_ENSURES(__CPROVER_return_value != 1 || &zck->check_chunk_hash != g_hu_hash || zck->comp.data_idx->comp_length == 0 || !(g_k1 < (size_t)zck->comp.data_idx->digest_size) || g_fin_val == zck->comp.data_idx->digest[g_k1]) /*@C02,C15.validate_current_chunk.valid_only_if_every_digest_byte_equal*/
